@@ -1494,3 +1494,146 @@ Proof.
       rewrite (slice_ok b i cut Hui (new_cut_ok _ _ _ _ _ _ _ Hub Hnew Hpos Hfc) (find_cut_le _ _ _ _ _ _ HC Hfc)).
       repeat match goal with |- (if ?c then _ else _) <> _ => destruct c end; discriminate.
 Qed.
+
+Corollary relativize_same_path_query_some b n p i q :
+  utf8_ok b = true -> utf8_ok i = true ->
+  positions_of b = Some p -> i = firstn (path_end p) b ++ c_qm :: q ->
+  exists r, relativize b n i = Ret (Some r).
+Proof.
+  intros Hb Hi Hp E. pose proof (relativize_no_panic b n i Hb Hi) as H1.
+  pose proof (relativize_same_path_query b n p i q Hp E) as H2.
+  destruct (relativize b n i) as [|[r|]]; [congruence|eauto|congruence].
+Qed.
+
+(* ---- same path, no query on the IRI while the base may have one: the last segment is emitted ---- *)
+Definition last_seg (P : str) : str :=
+  match rfind c_slash P with Some i => skipn (S i) P | None => P end.
+
+Lemma slashes_loop_lt b pb : forall fuel pos s, pb <= pos ->
+  In s (slashes_loop fuel b pb pos) -> s < pos.
+Proof.
+  induction fuel as [|f IH]; intros pos s Hp H; cbn [slashes_loop] in H; [contradiction|].
+  destruct (rfind c_slash (slice pb pos b)) as [[|i]|] eqn:F; try contradiction.
+  apply rfind_some in F as [F _]. unfold slice in F. rewrite firstn_length in F.
+  destruct H as [<-|H]; [lia|]. apply IH in H; lia.
+Qed.
+
+Lemma split_no_slash_single s : no_slash s -> split_on c_slash s = [s].
+Proof.
+  unfold no_slash. induction s as [|x s IH]; [reflexivity|]. cbn [forallb split_on].
+  intros H. apply andb_true_iff in H as [H1 H2]. unfold is_slash in H1. apply negb_true_iff in H1.
+  rewrite H1, (IH H2). reflexivity.
+Qed.
+
+Lemma forallb_skipn {A} (f : A -> bool) l k : forallb f l = true -> forallb f (skipn k l) = true.
+Proof.
+  revert l. induction k as [|k IH]; intros l H; [exact H|]. destruct l; [reflexivity|].
+  simpl in H. apply andb_true_iff in H as [_ H]. apply IH. exact H.
+Qed.
+
+Lemma skipn_app_S {A} (a : list A) c t : skipn (S (length a)) (a ++ c :: t) = t.
+Proof. induction a as [|x a IH]; [reflexivity|]. exact IH. Qed.
+
+Theorem relativize_same_path_noquery b n p i f :
+  positions_of b = Some p -> i = firstn (path_end p) b ++ f ->
+  (f = [] \/ hd_is (N.eqb c_hash) f = true) ->
+  is_dot_seg (last_seg (ox_path b p)) = false ->
+  (scheme_end p < authority_end p -> ox_path b p <> []) ->
+  relativize b n i <> Ret None.
+Proof.
+  intros Hpos Hi Hf Hlast Hne. destruct (new_some b n p Hpos) as [z Hnew].
+  unfold relativize. rewrite Hnew.
+  destruct (new_inv _ _ _ Hnew) as (p' & Hpos' & Hok & Hb & Hqe & Hpe & Hpb & Hha & Hsl).
+  rewrite Hpos in Hpos'. injection Hpos' as <-.
+  pose proof (po_ae_pe _ _ Hok) as H1. pose proof (po_pe_qe _ _ Hok) as H2. pose proof (po_qe_len _ _ Hok) as H3.
+  pose proof (new_path_end0 b p Hok) as HL.
+  set (P := ox_path b p) in *.
+  assert (L : length (firstn (path_end p) b) = path_end p) by (rewrite firstn_length; lia).
+  assert (Hl : path_end p <= lcp b i) by (subst i; apply lcp_app; lia).
+  assert (Hs : slice_from i (path_end p) = Some f).
+  { subst i. rewrite <- L at 2. apply slice_from_app. destruct Hf as [Hf|Hf]; [left; exact Hf|right].
+    destruct f as [|c t]; [discriminate|]. cbn [hd_is] in *. apply N.eqb_eq in Hf. subst c. reflexivity. }
+  assert (Hfq : hd_is (N.eqb c_qm) f = false).
+  { destruct Hf as [->|Hf]; [reflexivity|]. destruct f as [|c t]; [reflexivity|]. cbn [hd_is] in *.
+    apply N.eqb_eq in Hf. subst c. reflexivity. }
+  (* where the cut falls: just after the last slash of the base path *)
+  assert (Hcut : exists k, find_cut (lcp b i) (z_slashes z) 0 (z_pseudoroot z) = (0, authority_end p + k)
+                 /\ z_pseudoroot z <= path_end p /\ k <= length P /\ skipn k P = last_seg P /\ no_slash (last_seg P)).
+  { cbv zeta in Hsl. unfold last_seg.
+    assert (Hall : forall s, In s (slashes_loop (S n) b (authority_end p) (path_end p)) -> s < path_end p)
+      by (intros s; apply slashes_loop_lt; lia).
+    revert Hsl Hall. cbn [slashes_loop]. change (slice (authority_end p) (path_end p) b) with P.
+    destruct (rfind c_slash P) as [[|j]|] eqn:F.
+    - (* only the root slash *)
+      intros Hsl _. cbn [length] in Hsl. rewrite (path_root _ _ Hok) in Hsl. fold P in Hsl.
+      destruct (rfind_decomp _ _ F) as (a & t & E & La & Ht & _). destruct a; [|discriminate].
+      rewrite E in Hsl |- *. cbn [app hd_is] in Hsl. change (is_slash c_slash) with true in Hsl.
+      replace (n <? 0) with false in Hsl by (symmetry; apply Nat.ltb_ge; lia).
+      injection Hsl as -> ->. exists 1. cbn [find_cut]. rewrite E in HL. simpl in HL.
+      repeat split; try (simpl; lia). exact Ht.
+    - intros Hsl Hall.
+      set (s0 := S j + authority_end p) in *. set (SL' := slashes_loop n b (authority_end p) s0) in *.
+      assert (Hs0 : s0 < path_end p) by (apply Hall; left; reflexivity).
+      destruct (rfind_decomp _ _ F) as (a & t & E & La & Ht & _).
+      assert (Hk : skipn (S (S j)) P = t).
+      { rewrite E, <- La. apply skipn_app_S. }
+      assert (HkP : S (S j) <= length P).
+      { rewrite E, app_length. simpl. lia. }
+      exists (S (S j)). replace (authority_end p + S (S j)) with (s0 + 1) by (unfold s0; lia).
+      assert (Hfc : forall sl pr, find_cut (lcp b i) (s0 :: sl) 0 pr = (0, s0 + 1)).
+      { intros sl pr. cbn [find_cut]. destruct (Nat.ltb_spec s0 (lcp b i)); [reflexivity|lia]. }
+      assert (Hlast' : last (s0 :: SL') 0 + 1 <= path_end p).
+      { pose proof (last_in (s0 :: SL') 0) as Hin. specialize (Hin ltac:(discriminate)). apply Hall in Hin. lia. }
+      rewrite Hk. split; [|split; [|split; [exact HkP|split; [reflexivity|exact Ht]]]].
+      + destruct (n <? length (s0 :: SL')).
+        * injection Hsl as -> ->. destruct SL' as [|y SL'']; [reflexivity|].
+          change (removelast (s0 :: y :: SL'')) with (s0 :: removelast (y :: SL'')). apply Hfc.
+        * destruct (hd_is is_slash (skipn (authority_end p) b)); injection Hsl as -> ->; apply Hfc.
+      + destruct (n <? length (s0 :: SL')).
+        * injection Hsl as _ ->. exact Hlast'.
+        * destruct (hd_is is_slash (skipn (authority_end p) b)) eqn:Hr; injection Hsl as _ ->; [|lia].
+          rewrite (path_root _ _ Hok) in Hr. fold P in Hr. destruct P; [discriminate|]. simpl in HL. lia.
+    - (* no slash at all *)
+      intros Hsl _. cbn [length] in Hsl. rewrite (path_root _ _ Hok) in Hsl. fold P in Hsl.
+      pose proof (rfind_none _ F) as Hns.
+      assert (Hr : hd_is is_slash P = false).
+      { destruct P as [|x P']; [reflexivity|]. unfold no_slash in Hns. cbn [forallb hd_is] in *.
+        apply andb_true_iff in Hns as [Hx _]. apply negb_true_iff in Hx. exact Hx. }
+      rewrite Hr in Hsl. replace (n <? 0) with false in Hsl by (symmetry; apply Nat.ltb_ge; lia).
+      injection Hsl as -> ->. exists 0. cbn [find_cut]. rewrite Nat.add_0_r.
+      repeat split; try lia. exact Hns. }
+  destruct Hcut as (k & Hfc & Hpr & Hk & Hlk & Hnsl).
+  unfold relativize_z. rewrite Hb, Hqe, Hpe, Hpb, Hha, Hfc.
+  destruct (if query_end p <=? lcp b i then rest_is (N.eqb c_hash) i (query_end p) else Some false)
+    as [[|]|]; unfold emit_from.
+  { destruct (slice_from i (query_end p)); discriminate. }
+  2:{ discriminate. }
+  destruct (Nat.leb_spec (path_end p) (lcp b i)) as [_|]; [|lia].
+  rewrite Hs. cbn [option_map]. rewrite Hfq.
+  destruct (Nat.leb_spec (z_pseudoroot z) (lcp b i)) as [_|]; [|lia].
+  destruct (slice_from i (authority_end p + k)) as [suffix|] eqn:ES; [|discriminate].
+  apply slice_from_some in ES as [-> _].
+  assert (Hsuffix : skipn (authority_end p + k) i = last_seg P ++ f).
+  { subst i. rewrite skipn_app, L. replace (authority_end p + k - path_end p) with 0 by lia.
+    cbn [skipn]. f_equal. rewrite skipn_add, skipn_firstn_comm. fold (slice (authority_end p) (path_end p) b).
+    change (slice (authority_end p) (path_end p) b) with P. exact Hlk. }
+  rewrite Hsuffix.
+  assert (Hnq : forallb (fun c => negb (is_qh c)) (last_seg P) = true).
+  { rewrite <- Hlk. apply forallb_skipn. apply (po_path_noqh _ _ Hok). }
+  assert (Hkq : find_or_len is_qh (last_seg P ++ f) = length (last_seg P)).
+  { destruct Hf as [->|Hf].
+    - rewrite app_nil_r. apply find_or_len_all. exact Hnq.
+    - destruct f as [|c t]; [discriminate|]. cbn [hd_is] in Hf. apply N.eqb_eq in Hf. subst c.
+      apply find_or_len_app; [exact Hnq|reflexivity]. }
+  rewrite Hkq, firstn_app_len.
+  unfold has_dot_seg. rewrite (split_no_slash_single _ Hnsl). cbn [existsb]. rewrite Hlast. cbn [orb].
+  assert (Hh : hd_is is_slash (last_seg P) = false).
+  { destruct (last_seg P) as [|x t]; [reflexivity|]. unfold no_slash in Hnsl. cbn [forallb hd_is] in *.
+    apply andb_true_iff in Hnsl as [Hx _]. apply negb_true_iff in Hx. exact Hx. }
+  rewrite Hh.
+  assert (Hg : (scheme_end p <? authority_end p) && Nat.eqb (authority_end p) (path_end p) = false).
+  { destruct (Nat.ltb_spec (scheme_end p) (authority_end p)) as [Ha|Ha]; [|reflexivity].
+    cbn [andb]. apply Nat.eqb_neq. intros E. apply (Hne Ha). destruct P; [reflexivity|]. simpl in HL. lia. }
+  rewrite Hg. cbn [Nat.ltb Nat.leb].
+  destruct (match last_seg P with [] => true | _ :: _ => false end || has_colon (first_seg (last_seg P))); discriminate.
+Qed.
